@@ -247,7 +247,7 @@ fn run(ctx: &mut Ctx) {
     });
     // ---- every ordered pair of boundary words (all 256 top bytes x 7 low parts, the scaler tag among them) as a 2-word
     // stream, and with a third word appended: what a word means must not depend on its neighbours or its position
-    let lows: [u32; 7] = [0, 1, 0x3C, 0x7F_FFFF, 0x80_0000, 0xFF_FFFF, 0x00_003D];
+    let lows: [u32; 11] = [0, 1, 0x3C, 0x7F_FFFF, 0x80_0000, 0xFF_FFFF, 0x00_003D, 0x7F_FFF0, 0x7F_FFFE, 0xFF_FFF0, 0xFF_FFFE];
     ctx.cases("word-pairs", 256, |ctx, top1, rng| {
         for lo1 in lows {
             let a = (lo1 | (top1 as u32) << 24).to_le_bytes();
@@ -268,7 +268,7 @@ fn run(ctx: &mut Ctx) {
                 }
             }
         }
-        ctx.count_n("two- and three-word streams of boundary words", 7 * 256 * 7);
+        ctx.count_n("two- and three-word streams of boundary words", 11 * 256 * 11);
     });
     // ---- inputs of 1 MiB and more (a size at which an implementation may switch strategy), ending in a complete block,
     // a partial block, an entry, a partial word, an invalid word; and words with a channel number beyond the last
@@ -355,6 +355,25 @@ fn run(ctx: &mut Ctx) {
                     ctx.count("streams with words made from source constants");
                 }
             }
+        }
+    });
+    // ---- every word 0xFE0000nn and 0xFEnn003C / 0xFE00nn3C at an element boundary, followed by 1 100 bytes of valid entries
+    // (enough for a "block" of any length up to 255 words): only 3C 00 00 FE starts a block, and it is 244 bytes long
+    ctx.cases("tag-variants", 256, |ctx, nn, rng| {
+        for w in [0xFE00_0000u32 | nn as u32, 0xFE00_003C | (nn as u32) << 16, 0xFE00_003C | (nn as u32) << 8] {
+            let mut st: Vec<u8> = Vec::new();
+            st.extend(ts_word(rng.below(59) as u8, rng.bool(), rng.next()));
+            st.extend(w.to_le_bytes());
+            for _ in 0..275 {
+                st.extend(ts_word(rng.below(59) as u8, rng.bool(), rng.next()));
+            }
+            let Some((got, consumed)) = lib_parse(ctx, &st) else { return };
+            let (exp, ec) = ref_parse(&st);
+            if got != exp || consumed != ec {
+                ctx.violation("entries or consumed length differ from the reference parser", format!("tag-like word {:08x} followed by 1100 bytes of entries: consumed {} vs {}, entries {} vs {}", w, consumed, ec, got.len(), exp.len()), json!({"word": format!("{:08x}", w)}));
+                return;
+            }
+            ctx.count("tag-like words followed by a long run of entries");
         }
     });
     // ---- scaler blocks whose 240 content bytes are themselves tags / markers / timestamps / all ones, alone, back to
